@@ -362,6 +362,12 @@ def run(ctx: Any) -> None:
     _interp_leg(ctx, 12 if quick else 60)
 
     # ---- observation (not a violation, see module docstring): a refused shm-routed request keeps its region --------
+    try:
+        left = d.probe_refused_request()
+        ctx.notes.append(f"observation: shm-routed request with an unsupported request_version leaves {len(left)} region(s) allocated: {left}")
+        ctx.tally("refused_request_regions_left", len(left))
+    except Exception as e:  # noqa: BLE001 - observation only
+        ctx.notes.append(f"observation probe failed: {type(e).__name__}: {e}")
     ctx.assumptions += [
         "lockstep: client and server never run allocator operations concurrently (one side active at a time)",
         "Arrow serialisation sizes (get_record_batch_size, stream length, dictionary+batch message length) are measured with pyarrow and fed to the model",
